@@ -29,6 +29,7 @@ type pageInfo struct {
 	items       []int
 	lastOfBatch bool
 	pub         time.Duration // publication time of the page's batch
+	deliveredAt int64         // seq at which the page was first handed to the library (0 = never)
 }
 
 type srcEvent struct {
@@ -266,6 +267,9 @@ func (s *source) fetch(ctx context.Context, link string, from *pg) (idx int, idl
 	q := s.ev("fetch %s -> page %d (%d items)", link, target, len(s.pages[target].items))
 	if target > s.deliveredUpTo {
 		s.deliveredUpTo = target
+	}
+	if s.pages[target].deliveredAt == 0 {
+		s.pages[target].deliveredAt = q
 	}
 	if target == len(s.pages)-1 && !s.spec.Open && s.terminalSeq == 0 {
 		s.terminalSeq = q
